@@ -36,7 +36,7 @@ class ClassInfo:
             if nm == "dataclass":
                 self.is_dataclass = True
         for n in self.node.body:
-            if isinstance(n, ast.FunctionDef):
+            if isinstance(n, (ast.FunctionDef, ast.ClassDef)):
                 self.attrs[n.name] = n
             elif isinstance(n, ast.Assign):
                 for t in n.targets:
